@@ -7,7 +7,10 @@ Families of cells
          sampling route): full product sizes x likelihood-Gaussian spec (4 parameterisations x
          scalar/vector/diagonal/dense) x prior-Gaussian spec (same 16) x model (matrix / function backed)
          x domain geometry (default / Continuous1D / StepExpansion / KLExpansion all modes /
-         KLExpansion truncated / MappedGeometry); inside a cell: prior mean (scalar 0 / scalar / zero
+         KLExpansion truncated / MappedGeometry) x forward-model definition (which operator: dense catalogue
+         matrix / node selection x[::2], x[1:], x; how it is handed over: dense ndarray, scipy.sparse csr / csc,
+         forward+adjoint functions; what the functions return: freshly computed ndarray, a view of the input /
+         the input object itself, a CUQIarray); inside a cell: prior mean (scalar 0 / scalar / zero
          vector / vector) x {as specified, after the public compute_cov()} -> MAP() and
          sample_posterior() (standard-normal request answered with the complete basis).
   ml     ML() over sizes x likelihood spec x model x geometry.
@@ -37,7 +40,11 @@ from vfw import refs
 from vfw.stream import Stream, affine_probe
 
 PROPERTY = "C15"
-RULE = ("cells = family x full configuration product (see BOUND); every lg cell evaluates MAP() and the direct "
+RULE = ("cells = family x full configuration product (see BOUND) of sizes, Gaussian specifications, geometry and "
+        "forward-model definition (operator: dense catalogue matrix / node selections x[::2], x[1:], x; handed over as "
+        "dense ndarray / scipy.sparse matrix / forward+adjoint functions (LinearModel) / forward function with or "
+        "without Jacobian (generic Model); functions returning a freshly computed ndarray / a view of their input or "
+        "the input object itself / a CUQIarray); every lg cell evaluates MAP() and the direct "
         "sampler for 4 prior-mean kinds x {as specified, after compute_cov()} and answers the standard-normal "
         "request with the complete basis {0,e_1..e_n}+1 linearity probe+1 three-draw run; every returned point is "
         "compared with the dense closed form and with all 4n lattice neighbours of the reference log-density; "
@@ -48,11 +55,23 @@ BOUND = {
              "the 16 likelihood / 16 prior specs against the scalar-cov partner + 2 mixed); each cell x 4 prior means "
              "x {as given, compute_cov()} x {MAP, direct sampling on the basis}; ml: 3 sizes x 16 specs x 2 models x "
              "6 geometries; lgopt: (3,2) x 34 spec pairs x 2 generic models x 3 geometries x 2 means; nl: 14 problems "
-             "x 1 variant; lattice: 4n neighbours at 0.05/0.5 sigma; value catalogue = seed % 3",
+             "x 1 variant; lattice: 4n neighbours at 0.05/0.5 sigma; value catalogue = seed % 3; "
+             "forward-model definitions: lg: {catalogue matrix as csr; catalogue matrix as functions returning "
+             "CUQIarray; x[::2], x[1:], x as functions returning views / the input object} x sizes (3,2),(2,3) "
+             "(selections: n in {2,3}, m = number of selected nodes) x 6 geometries x 5 spec pairs (every "
+             "parameterisation and shape at least once on each side; 34 pairs for default geometry, n=2); ml: the same 5 "
+             "definitions x n=3 (catalogue matrix: (3,3)) x 4 specs x 6 geometries; lgopt: {x[::2], x[1:], x returning views; catalogue matrix "
+             "returning CUQIarray} x 2 generic models x 2 sizes x 5 spec pairs x 3 geometries x 2 means",
     "thorough": "lg: (m,n) in {(3,2),(3,3),(2,3)} x 16 likelihood specs x 16 prior specs x 2 models x 6 geometries, "
                 "plus (1,2),(2,1),(4,3) x 34 spec pairs x 2 x 6 (each cell x 4 means x 2 x {MAP, direct sampling}); "
                 "ml: 3 sizes x 16 x 2 x 6 x 2 start points; lgopt: 3 sizes x 16 x 16 x 2 x 3 x 2; nl: 14 problems x 3 "
-                "variants; value catalogue = seed % 3",
+                "variants; value catalogue = seed % 3; forward-model definitions: lg: the 5 quick definitions + "
+                "catalogue matrix as csc: sizes (3,2),(3,3),(2,3) / n in {2,3} x 6 geometries x 34 spec pairs; each "
+                "selection x[::2], x[1:], x additionally as dense matrix / csr matrix / functions computing S@x / "
+                "functions returning CUQIarray(S@x): n in {2,3} x 6 geometries x (34 pairs for default and Continuous1D "
+                "geometry, 5 otherwise); ml: all 18 definitions x sizes x 16 specs x 6 geometries x 2 starts; lgopt: "
+                "selections x {view, fresh, CUQIarray} + catalogue matrix returning CUQIarray, 2 generic models x 2 "
+                "sizes x 34 pairs x 3 geometries x 2 means",
 }
 ASSUMPTIONS = [
     "the forward map is taken as a black box: the effective parameter-to-data matrix is [forward(e_i)-forward(0)] "
@@ -65,6 +84,10 @@ ASSUMPTIONS = [
     "unimodality of the nl problems: log-concave by construction (LMRF/Laplace/exp-link cases) or verified by "
     "multi-start optimisation of the reference density when the check was written (WangCubic, CMRF, Poisson1D)",
     "sample_posterior is observed with Ns=1 and Ns=3; the law of numpy's randn is the trusted base",
+    "forward-model definition facet: the view-returning definitions are basic-indexing views (x[::2], x[1:]) and "
+    "the input object itself; the functions never write to their argument; advanced-indexing / reshaping / "
+    "in-place-mutating operators and sparse formats other than csr/csc are not enumerated; the reference probes the "
+    "forward map with a newly allocated vector per call, so it cannot be affected by aliasing itself",
 ]
 
 PARAMS = ["cov", "prec", "sqrtcov", "sqrtprec"]
@@ -72,8 +95,52 @@ SHAPES = ["scalar", "vector", "diag", "dense"]
 GEOMS = ["default", "cont", "step", "klall", "kltrunc", "mapped"]
 MEANS = ["zero", "scalar", "zerovec", "vector"]
 BASE = {"lp": "cov", "ls": "scalar", "pp": "cov", "ps": "scalar", "mean": "zerovec", "model": "matrix",
-        "geom": "default", "precov": False}
-FACET_ORDER = ["precov", "mean", "geom", "model", "lp", "ls", "pp", "ps"]
+        "geom": "default", "precov": False, "op": "full", "ret": "fresh"}
+FACET_ORDER = ["precov", "mean", "geom", "ret", "op", "model", "lp", "ls", "pp", "ps"]
+FACET_NAMES = ["model", "op", "ret", "geom", "lp", "ls", "pp", "ps", "mean", "precov"]
+# reduction targets tried in this order (default: the baseline value only); a selection operator that cannot be
+# reduced to the full catalogue matrix (a view-returning definition only exists for selections) is reduced to the identity
+REDUCE_TO = {"op": ["full", "ident"]}
+
+# ---- forward-model definition facet -------------------------------------------------------------------------
+# op    which linear operator (function-value space -> data): "full" = dense catalogue matrix; selections of nodes:
+#       "stride" = every second node (x[::2]), "slice" = all nodes but the first (x[1:]), "ident" = all nodes (x)
+# model how it is handed to the library: dense ndarray / scipy.sparse csr / csc matrix, forward+adjoint functions
+#       (LinearModel), forward function with / without Jacobian (generic Model)
+# ret   what the functions return: "fresh" = a newly computed ndarray (A @ x), "view" = a basic-indexing view of the
+#       input or the input object itself (selections only), "cuqiarray" = a newly computed CUQIarray
+VIEW_OPS = ("stride", "slice", "ident")
+DEFS_QUICK = [("full", "sparse-csr", "fresh"), ("full", "function", "cuqiarray"),
+              ("stride", "function", "view"), ("slice", "function", "view"), ("ident", "function", "view")]
+DEFS_THOROUGH = DEFS_QUICK + [("full", "sparse-csc", "fresh")] + [
+    (op, mdl, ret) for op in VIEW_OPS
+    for (mdl, ret) in [("matrix", "fresh"), ("sparse-csr", "fresh"), ("function", "fresh"), ("function", "cuqiarray")]]
+GENERIC_DEFS = [("stride", "view"), ("slice", "view"), ("ident", "view"), ("full", "cuqiarray")]
+GENERIC_DEFS_THOROUGH = GENERIC_DEFS + [(op, ret) for op in VIEW_OPS for ret in ("fresh", "cuqiarray")]
+SMALL_PAIRS = [(("cov", "scalar"), ("cov", "scalar")), (("prec", "vector"), ("sqrtcov", "diag")),
+               (("sqrtcov", "diag"), ("prec", "vector")), (("sqrtprec", "dense"), ("cov", "dense")),
+               (("cov", "dense"), ("sqrtprec", "scalar"))]
+SMALL_SPECS = [("cov", "scalar"), ("prec", "vector"), ("sqrtcov", "diag"), ("sqrtprec", "dense")]
+
+
+def _fun_dim(geom, n):
+    """Number of function values (= columns of the operator) of the domain geometry called `geom` with n parameters."""
+    return {"step": 2 * n, "kltrunc": n + 2}.get(geom, n)
+
+
+def _rows(op, N):
+    """Nodes observed by a selection operator on N function values."""
+    if op == "stride":
+        return list(range(0, N, 2))
+    if op == "slice":
+        return list(range(1, N))
+    if op == "ident":
+        return list(range(N))
+    raise ValueError(op)
+
+
+def _range_dim(op, geom, n, m):
+    return m if op == "full" else len(_rows(op, _fun_dim(geom, n)))
 
 
 # ----------------------------------------------------------------------------------------
@@ -103,6 +170,23 @@ def cells(tier, seed):
                 for (lp, ls), (pp, ps) in _spec_pairs(full):
                     yield {"fam": "lg", "m": m, "n": n, "cat": k, "lp": lp, "ls": ls, "pp": pp, "ps": ps,
                            "model": model, "geom": geom}
+    # ---- lg, forward-model definition facet (operator x definition x what the functions return)
+    for (op, model, ret) in (DEFS_THOROUGH if thorough else DEFS_QUICK):
+        if op == "full":
+            szs = [(3, 2), (3, 3), (2, 3)] if thorough else [(3, 2), (2, 3)]
+        else:
+            szs = [(None, 2), (None, 3)]
+        primary = (op, model, ret) in DEFS_QUICK or op == "full"
+        for (m, n) in szs:
+            for geom in GEOMS:
+                if thorough:
+                    many = primary or geom in ("default", "cont")
+                else:
+                    many = geom == "default" and n == 2
+                pairs = _spec_pairs(False) if many else SMALL_PAIRS
+                for (lp, ls), (pp, ps) in pairs:
+                    yield {"fam": "lg", "m": _range_dim(op, geom, n, m), "n": n, "cat": k, "lp": lp, "ls": ls,
+                           "pp": pp, "ps": ps, "model": model, "geom": geom, "op": op, "ret": ret}
     # ---- ml
     for (m, n) in [(3, 2), (3, 3), (2, 3)]:
         for lp in PARAMS:
@@ -116,6 +200,17 @@ def cells(tier, seed):
         for ls in (("vector",) if not thorough else ("vector", "scalar", "diagonal")):
             yield {"fam": "ml", "m": 76, "n": 2, "cat": k, "lp": lp, "ls": ls, "model": "matrix", "geom": "default",
                    "starts": 2 if thorough else 1}
+    # ---- ml, forward-model definition facet
+    for (op, model, ret) in (DEFS_THOROUGH if thorough else DEFS_QUICK):
+        if op == "full":
+            szs = [(3, 2), (3, 3), (2, 3)] if thorough else [(3, 3)]
+        else:
+            szs = [(None, n) for n in ((2, 3) if thorough else (3,))]
+        for (m, n) in szs:
+            for (lp, ls) in ([(p, sh) for p in PARAMS for sh in SHAPES] if thorough else SMALL_SPECS):
+                for geom in GEOMS:
+                    yield {"fam": "ml", "m": _range_dim(op, geom, n, m), "n": n, "cat": k, "lp": lp, "ls": ls,
+                           "model": model, "geom": geom, "op": op, "ret": ret, "starts": 2 if thorough else 1}
     # ---- lgopt
     for (m, n) in ([(3, 2), (3, 3), (2, 3)] if thorough else [(3, 2)]):
         for (lp, ls), (pp, ps) in _spec_pairs(thorough):
@@ -124,6 +219,16 @@ def cells(tier, seed):
                     for mean in ("zerovec", "vector"):
                         yield {"fam": "lgopt", "m": m, "n": n, "cat": k, "lp": lp, "ls": ls, "pp": pp, "ps": ps,
                                "model": model, "geom": geom, "mean": mean}
+    # ---- lgopt, forward-model definition facet
+    for (op, ret) in (GENERIC_DEFS_THOROUGH if thorough else GENERIC_DEFS):
+        for (m, n) in ([(3, 2), (2, 3)] if op == "full" else [(None, 2), (None, 3)]):
+            for (lp, ls), (pp, ps) in (_spec_pairs(False) if thorough else SMALL_PAIRS):
+                for model in ("generic-jac", "generic-nograd"):
+                    for geom in ("default", "step", "mapped"):
+                        for mean in ("zerovec", "vector"):
+                            yield {"fam": "lgopt", "m": _range_dim(op, geom, n, m), "n": n, "cat": k, "lp": lp,
+                                   "ls": ls, "pp": pp, "ps": ps, "model": model, "geom": geom, "mean": mean,
+                                   "op": op, "ret": ret}
     # ---- nl
     for name in NL_PROBLEMS:
         for var in (range(3) if thorough else range(1)):
@@ -200,19 +305,32 @@ def _build(size, k, cfg):
     from cuqi.problem import BayesianProblem
     m, n = size
     geom, N = _geom(cfg["geom"], n)
-    A = refs.full_matrix(m, N, k)
+    op, ret = cfg.get("op", "full"), cfg.get("ret", "fresh")
+    if op == "full":
+        A = refs.full_matrix(m, N, k)
+    else:                                   # selection of nodes: the number of data follows from the operator
+        rows = _rows(op, N)
+        m = len(rows)
+        A = np.eye(N)[rows]
     dg = geom if geom is not None else n
     kind = cfg["model"]
-    if kind == "matrix":
-        M = LinearModel(A.copy(), domain_geometry=geom) if geom is not None else LinearModel(A.copy())
-    elif kind == "function":
-        M = LinearModel(lambda x: A @ x, lambda y: A.T @ y, range_geometry=m, domain_geometry=dg)
-    elif kind == "generic-jac":
-        M = Model(lambda x: A @ x, range_geometry=m, domain_geometry=dg, jacobian=lambda x: A)
-    elif kind == "generic-nograd":
-        M = Model(lambda x: A @ x, range_geometry=m, domain_geometry=dg)
+    if kind in ("matrix", "sparse-csr", "sparse-csc"):
+        if kind == "matrix":
+            Amat = A.copy()
+        else:
+            import scipy.sparse
+            Amat = scipy.sparse.csr_matrix(A) if kind == "sparse-csr" else scipy.sparse.csc_matrix(A)
+        M = LinearModel(Amat, domain_geometry=geom) if geom is not None else LinearModel(Amat)
     else:
-        raise ValueError(kind)
+        fwd, adj = _function_pair(A, op, ret, N)
+        if kind == "function":
+            M = LinearModel(fwd, adj, range_geometry=m, domain_geometry=dg)
+        elif kind == "generic-jac":
+            M = Model(fwd, range_geometry=m, domain_geometry=dg, jacobian=lambda x: A)
+        elif kind == "generic-nograd":
+            M = Model(fwd, range_geometry=m, domain_geometry=dg)
+        else:
+            raise ValueError(kind)
     la, Ce = _spec(m, cfg["lp"], cfg["ls"], k, "lik")
     pa, Cx = _spec(n, cfg["pp"], cfg["ps"], k, "pri")
     marg, mu = _mean(cfg["mean"], n, k)
@@ -227,6 +345,26 @@ def _build(size, k, cfg):
         P.BP.prior.compute_cov()
     P.M, P.b, P.Ce, P.Cx, P.mu, P.n, P.m = M, b, Ce, Cx, mu, n, m
     return P
+
+
+def _function_pair(A, op, ret, N):
+    """(forward, adjoint) of the operator A (N columns) as plain functions of the function values."""
+    if ret == "fresh":
+        return (lambda x: A @ x), (lambda y: A.T @ y)
+    if ret == "cuqiarray":
+        from cuqi.array import CUQIarray
+        return (lambda x: CUQIarray(A @ x, is_par=True)), (lambda y: CUQIarray(A.T @ y, is_par=True))
+    if ret != "view" or op not in VIEW_OPS:
+        raise ValueError("no view-returning definition of operator %r" % op)
+    if op == "ident":                       # the very same object goes through
+        return (lambda x: x), (lambda y: y)
+    sl = slice(0, None, 2) if op == "stride" else slice(1, None)
+
+    def adjoint(y):
+        z = np.zeros(N)
+        z[sl] = y
+        return z
+    return (lambda x: x[sl]), adjoint
 
 
 def _effective_matrix(M, n):
@@ -503,21 +641,24 @@ def _attribute(size, k, cfg, fails):
     while changed:                      # repeat until every remaining non-baseline facet is necessary
         changed = False
         for f in FACET_ORDER:
-            if f not in cur or cur[f] == BASE[f]:
+            if f not in cur:
                 continue
-            trial = dict(cur)
-            trial[f] = BASE[f]
-            try:
-                still = fails(trial)
-            except HarnessError:
-                raise
-            except Exception:
-                still = False
-            if still:
-                cur = trial
-                changed = True
-    fac = ["%s=%s" % (f, cur[f]) for f in ["model", "geom", "lp", "ls", "pp", "ps", "mean", "precov"]
-           if f in cur and cur[f] != BASE[f]]
+            for target in REDUCE_TO.get(f, [BASE[f]]):
+                if cur[f] == target:
+                    break
+                trial = dict(cur)
+                trial[f] = target
+                try:
+                    still = fails(trial)
+                except HarnessError:
+                    raise
+                except Exception:
+                    still = False
+                if still:
+                    cur = trial
+                    changed = True
+                    break
+    fac = ["%s=%s" % (f, cur[f]) for f in FACET_NAMES if f in cur and cur[f] != BASE[f]]
     return ",".join(fac) if fac else "baseline"
 
 
@@ -558,8 +699,7 @@ def _names(kinds):
 
 
 def _cfgstr(cfg):
-    return ",".join("%s=%s" % (f, cfg[f]) for f in ["model", "geom", "lp", "ls", "pp", "ps", "mean", "precov"]
-                    if f in cfg)
+    return ",".join("%s=%s" % (f, cfg[f]) for f in FACET_NAMES if f in cfg)
 
 
 # ----------------------------------------------------------------------------------------
@@ -572,7 +712,8 @@ def _eval_lg(cell):
     for mean in MEANS:
         for precov in (False, True):
             cfg = {"lp": cell["lp"], "ls": cell["ls"], "pp": cell["pp"], "ps": cell["ps"], "mean": mean,
-                   "model": cell["model"], "geom": cell["geom"], "precov": precov}
+                   "model": cell["model"], "geom": cell["geom"], "precov": precov,
+                   "op": cell.get("op", "full"), "ret": cell.get("ret", "fresh")}
             tag = "%s/%s" % (mean, "precov" if precov else "asgiven")
             prep = _prepare(size, k, cfg)
             # ---- MAP
@@ -680,7 +821,8 @@ def _eval_ml(cell):
     res = CellResult(cell)
     size, k = (cell["m"], cell["n"]), cell["cat"]
     cfg = {"lp": cell["lp"], "ls": cell["ls"], "pp": "cov", "ps": "scalar", "mean": "zerovec",
-           "model": cell["model"], "geom": cell["geom"], "precov": False}
+           "model": cell["model"], "geom": cell["geom"], "precov": False,
+           "op": cell.get("op", "full"), "ret": cell.get("ret", "fresh")}
     judged = 0
     for si in range(cell["starts"]):
         x0 = None if si == 0 else refs.dyadic_vec(cell["n"], k + 4, scale=0.5)
@@ -709,7 +851,8 @@ def _eval_lgopt(cell):
     res = CellResult(cell)
     size, k = (cell["m"], cell["n"]), cell["cat"]
     cfg = {"lp": cell["lp"], "ls": cell["ls"], "pp": cell["pp"], "ps": cell["ps"], "mean": cell["mean"],
-           "model": cell["model"], "geom": cell["geom"], "precov": False}
+           "model": cell["model"], "geom": cell["geom"], "precov": False,
+           "op": cell.get("op", "full"), "ret": cell.get("ret", "fresh")}
     st, kinds, obs = _op_estimate(size, k, cfg, "MAP")
     res.transitions += 1
     res.state("MAP:%s" % st)
